@@ -180,6 +180,7 @@ func (idx *timeSeriesIndex) ExpireTimeSeriesIDs(memTimeSeriesIDs *roaring.Bitmap
 // GC clears expired time series ids.
 func (idx *timeSeriesIndex) GC(gcTimestamp int64) {
 	activeIDs := roaring.New()
+	expired := false
 	// gc memory time series index
 	idx.hashes.Range(func(key, value any) bool {
 		memTimeSeriesID := value.(uint32)
@@ -187,11 +188,16 @@ func (idx *timeSeriesIndex) GC(gcTimestamp int64) {
 		if ok && expiredTimestamp.(int64) < gcTimestamp {
 			idx.hashes.Delete(key)                 // delete memory index
 			idx.expiredIDs.Delete(memTimeSeriesID) // delete expired id
+			expired = true
 		} else {
 			activeIDs.Add(memTimeSeriesID)
 		}
 		return true
 	})
+	if !expired {
+		// no memory time series id is expired, time series index is not changed
+		return
+	}
 
 	active := activeIDs.GetCardinality()
 
@@ -200,8 +206,11 @@ func (idx *timeSeriesIndex) GC(gcTimestamp int64) {
 	// gc time series index
 	if active == 0 && !idx.ids.IsEmpty() {
 		idx.ids = imap.NewIntMap[uint32]()
-	} else if float64(active) <= 0.5*float64(idx.ids.Size()) {
-		// TODO: add config?
+	} else {
+		// NOTE: must remove the expired memory time series ids from time series index(series id=>memory time series id),
+		// because the memory index(tags hash=>memory time series id) of them is deleted. if keep them, a new memory time series id
+		// is generated when the series is written again, but time series index still maps the series id to the old one
+		// (IndexTimeSeries puts if not exist), then query/flush cannot find the data of the series.
 		newIds := imap.NewIntMap[uint32]()
 		_ = idx.ids.WalkEntry(func(key, value uint32) error {
 			if activeIDs.Contains(value) {
